@@ -44,6 +44,18 @@ def value_programs(tier):
     return out
 
 
+def mutation_programs():
+    """User code mutates a delivered container in place; a later operation delivers an equal value."""
+    out = []
+    for n, v in (("list", [1, 2]), ("dict", {"a": [1], "b": {}}), ("nested-list", [[1], {"k": []}])):
+        out.append({"name": f"mutated[{n}]", "seq": [
+            {"k": "step", "fn": {"ret": v}, "mutate": True}, {"k": "step", "fn": {"ret": v}}, {"k": "wait", "s": 1},
+            {"k": "step", "fn": {"ret": v}, "mutate": True}, {"k": "wait", "s": 1},
+            {"k": "child", "body": [{"k": "step", "fn": {"ret": v}}], "ret": v}, {"k": "wait", "s": 1},
+            {"k": "step", "fn": {"ret": "end"}}]})
+    return out
+
+
 ERR_MSGS = {"empty": "", "plain": "boom", "unicode": "caf\u00e9 \u2603", "long": "m" * 300, "colon": "a: b: c",
             "none-word": "None", "newline": "l1\nl2"}
 
@@ -77,6 +89,8 @@ def run(ctx):
     for p in error_programs():
         units.append(({"program": p, "cfg": {"env_kinds": ["crash"]}},
                       {"crash": 1, "total": 1} if ctx.tier == "quick" else {"crash": 2, "total": 2}, cap))
+    for p in mutation_programs():
+        units.append(({"program": p, "cfg": {"env_kinds": ["crash"]}}, {"crash": 1, "total": 1}, cap))
     for p in value_programs(ctx.tier):
         units.append(({"program": p, "cfg": {"env_kinds": ["crash", "page"], "page_modes": [0, 1, 4]}},
                       {"crash": 1, "page": 1, "total": 1} if ctx.tier == "quick" else {"crash": 2, "page": 1, "total": 2}, cap))
@@ -85,7 +99,8 @@ def run(ctx):
                               "2^70) delivered by a step, a child context, wait_for_condition and a parallel branch, each replayed "
                               "after every suspension and every single crash point; 14 error programs (two exception classes x messages "
                               "{empty, plain, unicode, 300 chars, colons, 'None', multi-line}) failing in a step, a child context and a "
-                              "parallel branch, caught by class and replayed")
+                              "parallel branch, caught by class and replayed; 3 programs whose user code mutates a delivered list/dict in place "
+                              "before an equal value is delivered by a later operation")
 
 
 def replay(rep):
